@@ -95,7 +95,9 @@ reg("C01",
     "to one, rescaling normalises the tropical polynomials, Box-Muller radius identity, the weighted propagator sum at the returned "
     "momenta equals c^2|q|^2 + (p^T X p - u^T L^-1 u), Jacobian determinant of the momentum map det(cQ^-T)^2 det L = c^(2L), gauge "
     "invariance of the weight; collected in `reduction`. The integral identity itself needs Schwinger parametrisation, Borinsky's "
-    "sector-density theorem and the inverse-CDF lemma, which are cited, not formalised; the Box-Muller theorem (C13.boxMuller_law) and the Gaussian law of the loop momenta (C10.momenta_law) are proved. Tie to the code: end-to-end correspondence "
+    "sector-density theorem, which are cited, not formalised; three of the measure-theoretic steps ARE proved (Mathlib): the Box-Muller theorem "
+    "(C13.boxMuller_law), the Gaussian law of the loop momenta (C10.momenta_law: centre -L^-1u, covariance (V/2 lambda) L^-1, normalisation "
+    "sqrt(det L)/c^L) and the inverse-CDF lemma for an exact quantile function (inverse_cdf_law). Tie to the code: end-to-end correspondence "
     "of sample on multi-loop/massive/non-trivial routings; supporting fixed-seed Monte Carlo against closed forms (tadpole, bubble, "
     "two-tadpole product under two routings; mean of jacobian*g = (pi/alpha)^(DL/2) for triangle, sunrise k1+-k2, double triangle, banana).",
     "Three classical theorems cited; Monte Carlo is a statistical supporting test (6 sigma + 0.5%), not a proof.",
